@@ -164,6 +164,9 @@ impl PathSliceList {
                                 write!(w, r#"2,{},{}"#, gen_lit_str(path), gen_lit_str(mod_name))?
                             }
                         },
+                        Some(PathSlice::Condition(..)) => {
+                            need_comma = false;
+                        }
                         _ => return Ok(false),
                     }
                 }
